@@ -288,6 +288,7 @@ type stateProgress struct {
 	mutex      sync.Mutex
 	closeOnce  sync.Once
 	resultOnce sync.Once
+	flushOnce  sync.Once
 	// Used to track subinclude() calls that block until targets are built. Keyed by their label.
 	pendingTargets *cmap.Map[BuildLabel, chan struct{}]
 	// Used to track general package parsing requests. Keyed by a packageKey struct.
@@ -424,6 +425,13 @@ func (state *BuildState) Stop() {
 // CloseResults closes the result channels.
 func (state *BuildState) CloseResults() {
 	state.progress.cycleDetector.Stop()
+	// Results are forwarded asynchronously; wait until everything that has been logged so far has
+	// been passed on, otherwise the last few (typically the final target being built) can be lost.
+	state.progress.flushOnce.Do(func() {
+		flushed := make(chan struct{})
+		state.progress.internalResults <- &BuildResult{flushed: flushed}
+		<-flushed
+	})
 	state.progress.mutex.Lock()
 	defer state.progress.mutex.Unlock()
 	if state.progress.results != nil {
@@ -666,6 +674,10 @@ func (state *BuildState) forwardResults() {
 			}
 		} else {
 			result = <-state.progress.internalResults
+		}
+		if result.flushed != nil {
+			close(result.flushed) // Not a real result, just tells CloseResults that we've got this far.
+			continue
 		}
 		if target := result.target; target != nil {
 			if result.Status.IsActive() {
@@ -1535,6 +1547,8 @@ type BuildResult struct {
 	Description string
 	// Test results
 	Tests TestSuite
+	// Closed by forwardResults once it has forwarded everything logged before this; never forwarded itself.
+	flushed chan struct{}
 }
 
 // A BuildResultStatus represents the status of a target when we log a build result.
